@@ -232,17 +232,23 @@ def build (s : Str) (m : MMap) : Option Obj := do
   let b ← baseScore full
   pure { vector := s, orig := m, metrics := full, base := b, severity := sevOf b }
 
-/-- `CVSS4(vector)` -/
-def construct (s : Str) : Except Err Obj :=
+/-- `parse_vector()` followed by `check_mandatory()` -/
+def parse (s : Str) : Except Err MMap :=
   match parseWithPrefix tables [pfx] s with
   | .error e => .error e
   | .ok (_, m) =>
     match checkMandatory tables m with
     | .error e => .error e
-    | .ok _ =>
-      match build s m with
-      | none => .error .foreign
-      | some o => .ok o
+    | .ok _ => .ok m
+
+/-- `CVSS4(vector)` -/
+def construct (s : Str) : Except Err Obj :=
+  match parse s with
+  | .error e => .error e
+  | .ok m =>
+    match build s m with
+    | none => .error .foreign
+    | some o => .ok o
 
 def Obj.scores (o : Obj) : List (Option Rat) := [some o.base]
 def Obj.severities (o : Obj) : List Str := [o.severity]
